@@ -40,7 +40,7 @@ fn garbage(cx: &mut Cx) -> Vec<u8> {
 
 impl C03 {
     fn decode_case(&self, cx: &mut Cx) {
-        let which = cx.rng.below(5);
+        let which = cx.rng.below(6);
         let ts = gamedig::TimeoutSettings::new(None, None, None, cx.rng.below(2) as usize).ok();
         let a = addr(25565);
         let mut answers: [Option<Vec<u8>>; 5] = Default::default();
@@ -94,6 +94,33 @@ impl C03 {
                         }
                     }
                     Outcome::Returned(Err(e)) => cx.violation(format!("C03 bedrock valid-reply-rejected kind={}", kind_name(&e.kind)), || detail(format!("{:?}", e.kind))),
+                    Outcome::Panicked(p) => cx.violation(format!("C03 panic at {} msg=\"{}\"", p.loc, norm_msg(&p.msg)), || detail(p.msg.clone())),
+                    Outcome::StepLimit { .. } => cx.violation("C03 step-limit", || detail("step".into())),
+                }
+            }
+            5 => {
+                // the short FE 01 ping answered in the section-sign-1 layout (what 1.4-1.6 servers send to it):
+                // the 1.4 query must skip the marker and return that status
+                let st = LegacyState::gen(&mut cx.rng, LegacyGroup::V1_6);
+                let stream = st.stream();
+                answers[3] = Some(stream.clone());
+                cx.shape("legacy|V1_4-request|V1_6-layout");
+                let run = run_with(McServerModel::new(answers, na, vec![]), DEFAULT_STEP_LIMIT, || minecraft::protocol::query_legacy_specific(LegacyGroup::V1_4, &a, ts));
+                let detail = |w: String| json!({"what": w, "shape": "1.4 request, 1.6-layout reply", "stream": hex(&stream), "state": format!("{st:?}")});
+                match run.outcome {
+                    Outcome::Returned(Ok(got)) => {
+                        let mut exp = st.expected();
+                        cx.count(&format!("1.4-request-1.6-layout label={:?}", got.server_type));
+                        exp.server_type = got.server_type.clone();
+                        match diff_java(&got, &exp, None) {
+                            None => {
+                                cx.count("legacy-1.4-request-1.6-layout-ok");
+                                cx.nontrivial(hash64(&stream) ^ 0x14);
+                            }
+                            Some(f) => cx.violation(format!("C03 legacy-V1_4-request-V1_6-layout wrong-field field={f}"), || detail(f.clone())),
+                        }
+                    }
+                    Outcome::Returned(Err(e)) => cx.violation(format!("C03 legacy-V1_4-request-V1_6-layout valid-reply-rejected kind={}", kind_name(&e.kind)), || detail(format!("{:?}", e.kind))),
                     Outcome::Panicked(p) => cx.violation(format!("C03 panic at {} msg=\"{}\"", p.loc, norm_msg(&p.msg)), || detail(p.msg.clone())),
                     Outcome::StepLimit { .. } => cx.violation("C03 step-limit", || detail("step".into())),
                 }
@@ -247,7 +274,7 @@ impl Check for C03 {
         Some((0 .. 16).map(|i| (i * 24, 24)).collect())
     }
     fn rule(&self) -> String {
-        "decoding: random Java (JSON with optional members, escapes, chat objects), Bedrock (6-12 fields), legacy 1.6 / 1.4 / beta 1.8 states encoded by independent models and decoded by the matching query (description compared as JSON). order: a reactive server speaking each of the 32 subsets of the five variants, with hostile non-answers (silence, empty close, garbage, truncation, refused connection) for the others; protocol::query, games::minecraft::query and query_legacy must return the first variant in documented order, labelled as such, AutoQuery iff none, and open connections in exactly that order. non-trivial = all oracles passed; distinct by stream bytes / (subset, non-answers, state)".into()
+        "decoding: random Java (JSON with optional members, escapes, chat objects), Bedrock (6-12 fields), legacy 1.6 / 1.4 / beta 1.8 states encoded by independent models and decoded by the matching query (description compared as JSON); the 1.4 ping answered in the 1.6 layout must return that status too. order: a reactive server speaking each of the 32 subsets of the five variants, with hostile non-answers (silence, empty close, garbage, truncation, refused connection) for the others; protocol::query, games::minecraft::query and query_legacy must return the first variant in documented order, labelled as such, AutoQuery iff none, and open connections in exactly that order. non-trivial = all oracles passed; distinct by stream bytes / (subset, non-answers, state)".into()
     }
     fn assumptions(&self) -> Vec<String> {
         vec![
@@ -283,6 +310,7 @@ impl Check for C03 {
             "subsets_seen_protocol_query": m.shapes.keys().filter(|k| k.starts_with("protocol::query|subset=")).count(),
             "subsets_seen_game_module": m.shapes.keys().filter(|k| k.starts_with("games::minecraft::query|subset=")).count(),
             "subsets_seen_query_legacy": m.shapes.keys().filter(|k| k.starts_with("query_legacy|subset=")).count(),
+            "legacy_1_4_request_answered_in_1_6_layout_ok": m.counters.get("legacy-1.4-request-1.6-layout-ok"),
         })
     }
 }
